@@ -262,7 +262,11 @@ def build_content(ctype, data):
     if ctype == 'memoryview-2d':
         return memoryview(data).cast('B', shape=[n // 2, 2]) if n and n % 2 == 0 else None
     if ctype == 'memoryview-noncontiguous':
-        return memoryview(bytes(b for x in data for b in (x, 0xEE)))[::2] if n > 1 else None
+        if n <= 1:
+            return None
+        ba = bytearray(b'\xee' * (2 * n))
+        ba[::2] = data
+        return memoryview(bytes(ba))[::2]
     if ctype == 'memoryview-reversed':
         return memoryview(data[::-1])[::-1] if n > 1 else None
     if ctype == 'array-B':
@@ -980,6 +984,8 @@ def oracle_tempfile(sc, case):
         d = base
     elif where == 'missing':
         d = os.path.join(base, *['m%d' % i for i in range(case.get('depth', 1))])
+    elif where in TEMP_WHERE_SPELLINGS:
+        d = spelled_dir(base, where, case.get('depth', 1))
     else:
         d = None if where == 'none' else ''
     target = d if d else base                                   # path='' means the current directory: chdir there
@@ -1085,9 +1091,12 @@ def run_tmpw(sc, case):
         with open(os.path.join(base, 'plain'), 'wb') as f:
             f.write(b'x')
         d = os.path.join(base, 'plain', 'sub')
+    elif where in TEMP_WHERE_SPELLINGS:
+        d = spelled_dir(base, where, case.get('depth', 1))
     else:
         d = None if where == 'none' else ''
     dd = as_ptype(d, case.get('ptype')) if d else d
+    short = case.get('short')
     inj = case.get('inject') or {}
     excs = {k: make_exc(v) for k, v in inj.items()}
     real = {'ensure': fu.ensure_tree, 'mk': tempfile.mkstemp, 'wr': os.write, 'close': os.close}
@@ -1101,6 +1110,10 @@ def run_tmpw(sc, case):
             if step in excs:
                 log[step].append(excs[step])
                 raise excs[step]
+            if step == 'wr' and short is not None and not log['wr']:
+                # write(2) may transfer fewer bytes than asked: transfer `short` of them and say so
+                log['wr'].append('short:%d' % short)
+                return real['wr'](a[0], memoryview(a[1]).cast('B')[:short]) if short else 0
             try:
                 r = real[step](*a, **k)
             except BaseException as e:
@@ -1138,10 +1151,50 @@ def run_tmpw(sc, case):
         closed = int(made[0][0] in log['close'])
     else:
         file, closed = 'none', 0
-    obs = '%s ensure=%d file=%s closed=%d' % (res, int(bool(log['ensure'])), file, closed)
-    spec = {k: outcome_spec(log[k][-1]) if log[k] else 'ok' for k in ('ensure', 'mk', 'wr')}
+    obs = squash('%s ensure=%d file=%s closed=%d' % (res, int(bool(log['ensure'])), file, closed))
+    spec = {k: (log[k][-1] if isinstance(log[k][-1], str) else outcome_spec(log[k][-1])) if log[k] else 'ok'
+            for k in ('ensure', 'mk', 'wr')}
     line = req('tmp', hexb(data), int(bool(d)), spec['ensure'], spec['mk'], spec['wr'])
     return obs, line
+
+
+def squash(text):
+    """`file=<hex>` of more than 4 KiB -> digest and length (both sides of the comparison go through this)"""
+    head, sep, rest = text.partition(' file=')
+    if not sep:
+        return text
+    file, sep2, tail = rest.partition(' closed=')
+    if len(file) > 8192:
+        raw = bytes.fromhex(file)
+        file = 'sha1:%s:%d' % (hashlib.sha1(raw).hexdigest(), len(raw))
+    return head + sep + file + sep2 + tail
+
+
+TEMP_WHERE_SPELLINGS = ('missing-dotdot', 'missing-dot', 'missing-slashes', 'missing-trailing-slash',
+                        'existing-dotdot', 'symlink-dotdot')
+
+
+def spelled_dir(base, where, depth):
+    """a directory argument that is legal but not in lexical normal form"""
+    w = os.path.join(base, 'w')
+    os.makedirs(w)
+    ms = ['m%d' % i for i in range(max(1, depth))]
+    if where == 'missing-dotdot':
+        return os.path.join(w, *(ms + ['..'] * len(ms) + ['leaf']))
+    if where == 'missing-dot':
+        return os.path.join(w, '.', *[x for m in ms for x in (m, '.')])
+    if where == 'missing-slashes':
+        return w + '//' + '//'.join(ms) + '//'
+    if where == 'missing-trailing-slash':
+        return os.path.join(w, *ms) + os.sep
+    if where == 'existing-dotdot':
+        os.makedirs(os.path.join(w, 'there'))
+        return os.path.join(w, 'there', '..', *ms)
+    if where == 'symlink-dotdot':
+        os.makedirs(os.path.join(base, 'other', 'deep'))
+        os.symlink(os.path.join('..', 'other', 'deep'), os.path.join(w, 'link'))
+        return os.path.join(w, 'link', '..', *ms)
+    raise ValueError(where)
 
 
 def gen_tmpw(ctx):
